@@ -1,245 +1,221 @@
-(* TrQuitAll.v -- C02: the `a` forms of ec_quit (xa, xa!) on the translated C text (GenCFuncs.cf_ec_quit), continuing TrQuit.v, which
-   proves the forms without `a`.  With `a` in the command the loop asks no buffer whether it is modified: for EVERY slot i = 0 .. 15 whose
-   lb is not NULL it calls  lbuf_save(bufs[i].lb, 0, -1, bufs[i].path, !!strchr(cmd, '!'), bufs[i].mtime)  -- the oracle X_lbuf_save, one
+(* TrQuitAll.v -- C02: the `a` forms of ec_quit (xa, xa!) on the translated C text (GenCFuncs.cf_ec_quit, /repo 37c81b2), continuing TrQuit.v,
+   which proves the forms without `a`.  With `a` in the command the loop asks no buffer whether it is modified: for EVERY slot i = 0 .. 15
+   whose lb is not NULL it calls  lbuf_save(bufs[i].lb, 0, -1, bufs[i].path, !!strchr(cmd, '!'), bufs[i].mtime)  -- the oracle X_lbuf_save, one
    call per occupied slot, in slot order, with exactly these arguments, whatever the path is (also the empty path of the buffer without a
-   name: there is no test of the path in the C text) -- and the first non-NULL answer ends the command with bufs_switch(i), ex_show(err),
-   return 0, xquit untouched.  Only when all 16 slots are done, xquit = 1 is stored.
-   lbuf_save reads the buffer and writes a file: its oracle leaves the memory as it is (hypothesis of every statement here). *)
+   name: there is no test of the path in the C text).  A message ends the command: bufs_switch(i), ex_show(message), return 0, xquit
+   untouched.  NULL (since fix 37c81b2): lbuf_saved(bufs[i].lb, 0) -- the translated function -- and bufs[i].mtime = mtime(bufs[i].path)
+   -- the oracle X_mtime, stored into the last cell of the slot --, then the next slot.  Only when all 16 slots are done xquit = 1 is stored.
+   The run of the loop against an environment is `arun`: which calls are made on which memory, and what the environment may assume
+   nothing about except that its calls leave the table and the command string in place. *)
 From Coq Require Import List ZArith NArith Bool Lia.
 From NV Require Import Bytes UndoDefs BufsDefs.
 From NV Require Import CLite CLiteProps GenCFuncs CLiteTac CLiteExt TrLbufBase TrLbuf TrBufs TrBufsLbuf TrQuit.
 Import ListNotations.
 
-(* the arguments of the call for slot i *)
+(* the arguments of the lbuf_save call for slot i *)
 Definition save_args (t : list cslot) (cmd : bytes) (i : nat) : list val :=
   [cs_lb (nths t i); VInt 0; VInt (-1); cs_path (nths t i); VInt (b2z (has_byte 33 cmd)); VInt (wrap I64 (cs_mtime (nths t i)))].
+(* an occupied slot has a path string (possibly the empty one) *)
+Definition path_ok (s : cslot) : Prop := is_null (cs_lb s) = false -> exists pb po, cs_path s = VPtr pb po.
+Definition paths_ok (t : list cslot) : Prop := Forall path_ok t.
 
-(* the first slot from i on (n slots left) that is occupied and whose save reports an error *)
-Fixpoint qa (t : list cslot) (sv : nat -> val) (n i : nat) : option nat :=
-  match n with
-  | O => None
-  | S n' => if negb (is_null (cs_lb (nths t i))) && negb (is_null (sv i)) then Some i else qa t sv n' (S i)
-  end.
+Lemma Forall_upd {A} (P : A -> Prop) l i x : Forall P l -> P x -> Forall P (upd l i x).
+Proof. intros H Hx. unfold upd. apply Forall_app. split; [apply Forall_firstn'; exact H|constructor; [exact Hx|apply Forall_skipn'; exact H]]. Qed.
+Lemma Forall_nths (P : cslot -> Prop) t i : Forall P t -> (i < length t)%nat -> P (nths t i).
+Proof. intros H Hi. rewrite Forall_forall in H. apply H. apply nth_In. exact Hi. Qed.
+
+(* how the loop ends: all 16 slots done (the table and memory then, the slots saved in call order), or slot j's save answered a message *)
+Inductive aout :=
+| ADone (t : list cslot) (m : mem) (saved : list nat)
+| AFail (j : nat) (msg : val) (t : list cslot) (m : mem) (saved : list nat).
+
 Section QuitAll.
   Variable ext : nat -> list val -> mem -> res (val * mem).
-  Variables (t : list cslot) (cb : nat) (cmd : bytes) (loc arg txt : val) (d fuel : nat).
-  Variable m : mem.
-  Variable sv : nat -> val.
-  Hypothesis Ht : tab_ok t.
-  Hypothesis Hlbs : lbs_ok t.
+  Variables (cb : nat) (cmd : bytes) (loc arg txt : val) (d fuel : nat).
   Hypothesis Ncmd : nonul cmd.
-  Hypothesis Hm : tab_at m t.
-  Hypothesis Hcmd : str_at m cb cmd.
   Variable ka : nat.
   Hypothesis Ha : find_byte 97 cmd = Some ka.
-  (* the oracle: for every occupied slot the call with THESE arguments answers sv i (NULL or a message) and leaves the memory *)
-  Hypothesis Hsave : forall i, (i < 16)%nat -> is_null (cs_lb (nths t i)) = false ->
-    ext X_lbuf_save (save_args t cmd i) m = Ok (sv i, m) /\ ptr_val (sv i).
-  (* an occupied slot has a path string (possibly the empty one) *)
-  Hypothesis Hpath : forall i, (i < 16)%nat -> is_null (cs_lb (nths t i)) = false -> exists pb po, cs_path (nths t i) = VPtr pb po.
   Let call := callx ext cprog fuel (S (S (S d))).
 
-  Lemma quit_all_ok : forall n i fuel' l5 l6, (i + n = 16)%nat -> (n < fuel')%nat ->
-    match qa t sv n i with
-    | None => exists l5' l6', exec call fuel' quit_loop (mkst [loc; VPtr cb 0; arg; txt; VInt (Z.of_nat i); l5; l6] m)
-                    = ONormal (mkst [loc; VPtr cb 0; arg; txt; VInt 16; l5'; l6'] m)
-    | Some j => forall u2 m2 u1 m', call F_bufs_switch [VInt (Z.of_nat j)] m = Ok (u2, m2) ->
-                    ext X_ex_show [sv j] m2 = Ok (u1, m') ->
+  (* the run of the loop from slot i (n slots left) on table t and memory m *)
+  Fixpoint arun (n i : nat) (t : list cslot) (m : mem) (acc : list nat) (o : aout) : Prop :=
+    match n with
+    | O => o = ADone t m (rev acc)
+    | S n' =>
+      if is_null (cs_lb (nths t i)) then arun n' (S i) t m acc o
+      else exists r m2, ext X_lbuf_save (save_args t cmd i) m = Ok (r, m2) /\ ptr_val r /\
+           if is_null r
+           then exists u3 m3 ts m4, tab_at m2 t /\
+                  call F_lbuf_saved [cs_lb (nths t i); VInt 0] m2 = Ok (u3, m3) /\ tab_at m3 t /\
+                  ext X_mtime [cs_path (nths t i)] m3 = Ok (VInt ts, m4) /\ tab_at m4 t /\
+                  let t' := upd t i (set_cs_mtime (nths t i) (wrap I64 ts)) in
+                  let m5 := upd m4 G_bufs (tab_cells t') in
+                  str_at m5 cb cmd /\ arun n' (S i) t' m5 (i :: acc) o
+           else o = AFail i r t m2 (rev acc)
+    end.
+
+  Lemma quit_all_ok : forall n i t m acc o fuel' l5 l6, (i + n = 16)%nat -> (n < fuel')%nat ->
+    tab_ok t -> lbs_ok t -> paths_ok t -> tab_at m t -> str_at m cb cmd -> arun n i t m acc o ->
+    match o with
+    | ADone t' m' _ => exists l5' l6', exec call fuel' quit_loop (mkst [loc; VPtr cb 0; arg; txt; VInt (Z.of_nat i); l5; l6] m)
+                    = ONormal (mkst [loc; VPtr cb 0; arg; txt; VInt 16; l5'; l6'] m')
+    | AFail j r t' m2 _ => forall u2 m3 u1 m', call F_bufs_switch [VInt (Z.of_nat j)] m2 = Ok (u2, m3) ->
+                    ext X_ex_show [r] m3 = Ok (u1, m') ->
                     exec call fuel' quit_loop (mkst [loc; VPtr cb 0; arg; txt; VInt (Z.of_nat i); l5; l6] m)
-                    = OReturn (VInt 0) (mkst [loc; VPtr cb 0; arg; txt; VInt (Z.of_nat j); VPtr G_bufs (0 + 41 * Z.of_nat j); sv j] m')
+                    = OReturn (VInt 0) (mkst [loc; VPtr cb 0; arg; txt; VInt (Z.of_nat j); VPtr G_bufs (0 + 41 * Z.of_nat j); r] m')
     end.
   Proof.
-    pose proof Ht as [Hl Hs]. unfold call.
-    induction n as [|n IH]; intros i fuel' l5 l6 Hik Hf; (destruct fuel' as [|fuel']; [lia|]); cbn [qa];
-      unfold quit_loop; cbn [fn_body cf_ec_quit]; rewrite exec_for; xstep; len16; xstep;
-      rewrite (wrap_U64_id (Z.of_nat i)) by lia; change (wrap U64 16) with 16.
-    - assert (i = 16%nat) by lia. subst i. change (Z.of_nat 16 <? 16) with false. xstep. eexists; eexists; reflexivity.
-    - destruct (Z.ltb_spec (Z.of_nat i) 16); [|lia]. xstep.
-      pose proof (fun l5' l6' => IH (S i) fuel' l5' l6' ltac:(lia) ltac:(lia)) as IH'. unfold quit_loop in IH'; cbn [fn_body cf_ec_quit] in IH'.
-      slot_off i 1%nat. destruct (lbs_nth t i Hlbs ltac:(lia)) as [E|[b [o E]]].
+    unfold call.
+    induction n as [|n IH]; intros i t m acc o fuel' l5 l6 Hik Hf Ht Hlbs Hpaths Hm Hcmd Hrun; pose proof Ht as [Hl Hs];
+      (destruct fuel' as [|fuel']; [lia|]); cbn [arun] in Hrun;
+      unfold quit_loop; cbn [fn_body cf_ec_quit].
+    - subst o. rewrite exec_for; xstep; len16; xstep. rewrite (wrap_U64_id (Z.of_nat i)) by lia; change (wrap U64 16) with 16.
+      assert (i = 16%nat) by lia. subst i. change (Z.of_nat 16 <? 16) with false. xstep. eexists; eexists; reflexivity.
+    - pose proof (fun t' m' acc' l5' l6' Ht' Hlbs' Hp' Hm' Hc' Hr' => IH (S i) t' m' acc' o fuel' l5' l6' ltac:(lia) ltac:(lia) Ht' Hlbs' Hp' Hm' Hc' Hr') as IH'.
+      unfold quit_loop in IH'; cbn [fn_body cf_ec_quit] in IH'.
+      destruct (lbs_nth t i Hlbs ltac:(lia)) as [E|[b [o0 E]]].
       + (* an empty slot *)
-        rewrite E. cbn [is_null negb andb].
-        rewrite (tab_load m t i 1 (VInt 0) _ Hm Hs) by (try lia; cbn [cs_tail nth_error]; congruence). xstep.
-        rewrite chk_I32 by lia. xstep. replace (Z.of_nat i + 1) with (Z.of_nat (S i)) by lia. exact (IH' l5 l6).
+        rewrite E in Hrun. cbn [is_null] in Hrun. specialize (IH' t m acc l5 l6 Ht Hlbs Hpaths Hm Hcmd Hrun).
+        assert (Hstep : forall K,
+          K (exec (callx ext cprog fuel (S (S (S d)))) (S fuel') quit_loop (mkst [loc; VPtr cb 0; arg; txt; VInt (Z.of_nat i); l5; l6] m)) ->
+          K (exec (callx ext cprog fuel (S (S (S d)))) (S fuel') quit_loop (mkst [loc; VPtr cb 0; arg; txt; VInt (Z.of_nat i); l5; l6] m))) by auto.
+        clear Hstep.
+        destruct o as [t' m' sv|j r t' m2 sv].
+        * destruct IH' as (l5' & l6' & IH'). exists l5', l6'. rewrite <- IH'.
+          rewrite exec_for; xstep; len16; xstep. rewrite (wrap_U64_id (Z.of_nat i)) by lia; change (wrap U64 16) with 16.
+          destruct (Z.ltb_spec (Z.of_nat i) 16); [|lia]. xstep.
+          slot_off i 1%nat. rewrite (tab_load m t i 1 (VInt 0) _ Hm Hs) by (try lia; cbn [cs_tail nth_error]; congruence). xstep.
+          rewrite chk_I32 by lia. xstep. replace (Z.of_nat i + 1) with (Z.of_nat (S i)) by lia. reflexivity.
+        * intros u2 m3 u1 m' Hsw Hshow. rewrite <- (IH' u2 m3 u1 m' Hsw Hshow).
+          rewrite exec_for; xstep; len16; xstep. rewrite (wrap_U64_id (Z.of_nat i)) by lia; change (wrap U64 16) with 16.
+          destruct (Z.ltb_spec (Z.of_nat i) 16); [|lia]. xstep.
+          slot_off i 1%nat. rewrite (tab_load m t i 1 (VInt 0) _ Hm Hs) by (try lia; cbn [cs_tail nth_error]; congruence). xstep.
+          rewrite chk_I32 by lia. xstep. replace (Z.of_nat i + 1) with (Z.of_nat (S i)) by lia. reflexivity.
       + (* an occupied slot: no question, lbuf_save *)
         assert (Hnn : is_null (cs_lb (nths t i)) = false) by (rewrite E; reflexivity).
-        destruct (Hsave i ltac:(lia) Hnn) as [Hsv Hp]. unfold save_args in Hsv.
-        rewrite Hnn. cbn [negb andb].
-        rewrite (tab_load m t i 1 (VPtr b o) _ Hm Hs) by (try lia; cbn [cs_tail nth_error]; congruence). xstep.
-        rewrite (strchr0 m cb cmd 97 97 eq_refl Hcmd Ncmd) by lia. rewrite Ha. xstep.
-        rewrite (strchr0 m cb cmd 97 97 eq_refl Hcmd Ncmd) by lia. rewrite Ha. xstep.
-        slot_off i 1%nat. rewrite (tab_load m t i 1 (VPtr b o) _ Hm Hs) by (try lia; cbn [cs_tail nth_error]; congruence). xstep.
-        change (chk I32 (- (1))) with (@Ok Z (-1)). xstep.
-        destruct (Hpath i ltac:(lia) Hnn) as (pb & po & Epath). rewrite Epath in Hsv.
-        slot_off i 0%nat. rewrite (tab_load m t i 0 (VPtr pb po) _ Hm Hs) by (try lia; cbn [cs_tail nth_error]; congruence). xstep.
-        rewrite (strchr0 m cb cmd 33 33 eq_refl Hcmd Ncmd) by lia.
+        rewrite Hnn in Hrun. destruct Hrun as (r & m2 & Hsv & Hp & Hrun). unfold save_args in Hsv.
+        destruct (Forall_nths path_ok t i Hpaths ltac:(lia) Hnn) as (pb & po & Epath). rewrite Epath, E in Hsv.
         assert (Hsv' : forall bz, bz = b2z (has_byte 33 cmd) ->
-                  ext X_lbuf_save [VPtr b o; VInt 0; VInt (-1); VPtr pb po; VInt bz; VInt (wrap I64 (cs_mtime (nths t i)))] m = Ok (sv i, m))
-          by (intros bz ->; rewrite <- E; exact Hsv).
+                  ext X_lbuf_save [VPtr b o0; VInt 0; VInt (-1); VPtr pb po; VInt bz; VInt (wrap I64 (cs_mtime (nths t i)))] m = Ok (r, m2))
+          by (intros bz ->; exact Hsv).
         unfold has_byte in Hsv'.
-        destruct (find_byte 33 cmd) as [kb|] eqn:Hb; xstep;
-          (slot_off i 8%nat; rewrite (tab_load m t i 8 (VInt (cs_mtime (nths t i))) _ Hm Hs) by (try lia; reflexivity); xstep;
-           rewrite callx_S, x_lbuf_save_none, (Hsv' _ eq_refl); xstep;
-           destruct Hp as [E6|[b6 [o6 E6]]]; rewrite E6 in *; cbn [is_null negb]; xstep;
-           [ rewrite chk_I32 by lia; xstep; replace (Z.of_nat i + 1) with (Z.of_nat (S i)) by lia; apply IH'
-           | intros u2 m2 u1 m' Hsw Hshow; rewrite ?E6 in Hshow; rewrite Hsw; xstep; rewrite callx_S, x_ex_show_none, Hshow; xstep; rewrite ?E6; reflexivity ]).
+        (* the common prefix of the iteration up to the answer of lbuf_save *)
+        destruct Hp as [E6|[b6 [o6 E6]]]; rewrite E6 in *; cbn [is_null] in Hrun.
+        * (* NULL: lbuf_saved, mtime, next slot *)
+          destruct Hrun as (u3 & m3 & ts & m4 & Hm2 & Hsaved & Hm3 & Hmt & Hm4 & Hc5 & Hrun). rewrite E in Hsaved. rewrite Epath in Hmt. unfold call in Hsaved.
+          set (t' := upd t i (set_cs_mtime (nths t i) (wrap I64 ts))) in *.
+          set (m5 := upd m4 G_bufs (tab_cells t')) in *.
+          assert (Ht' : tab_ok t') by (apply tab_ok_upd; [exact Ht|exact (Forall_nths slot_ok t i Hs ltac:(lia))|lia]).
+          assert (Hlbs' : lbs_ok t') by (apply lbs_ok_upd; [exact Hlbs|cbn [set_cs_mtime cs_lb]; rewrite E; right; eauto]).
+          assert (Hp' : paths_ok t') by (apply Forall_upd; [exact Hpaths|intros _; cbn [set_cs_mtime cs_path]; eauto]).
+          assert (Hm5 : tab_at m5 t') by (apply (tab_at_upd m4 t t' Hm4)).
+          specialize (IH' t' m5 (i :: acc) (VPtr G_bufs (0 + 41 * Z.of_nat i)) (VInt 0) Ht' Hlbs' Hp' Hm5 Hc5 Hrun).
+          assert (Hiter : forall rest,
+            rest = exec (callx ext cprog fuel (S (S (S d)))) fuel' quit_loop
+                     (mkst [loc; VPtr cb 0; arg; txt; VInt (Z.of_nat (S i)); VPtr G_bufs (0 + 41 * Z.of_nat i); VInt 0] m5) ->
+            exec (callx ext cprog fuel (S (S (S d)))) (S fuel') quit_loop (mkst [loc; VPtr cb 0; arg; txt; VInt (Z.of_nat i); l5; l6] m) = rest).
+          { intros rest ->. unfold quit_loop; cbn [fn_body cf_ec_quit].
+            rewrite exec_for; xstep; len16; xstep. rewrite (wrap_U64_id (Z.of_nat i)) by lia; change (wrap U64 16) with 16.
+            destruct (Z.ltb_spec (Z.of_nat i) 16); [|lia]. xstep.
+            slot_off i 1%nat. rewrite (tab_load m t i 1 (VPtr b o0) _ Hm Hs) by (try lia; cbn [cs_tail nth_error]; congruence). xstep.
+            rewrite (strchr0 m cb cmd 97 97 eq_refl Hcmd Ncmd) by lia. rewrite Ha. xstep.
+            rewrite (strchr0 m cb cmd 97 97 eq_refl Hcmd Ncmd) by lia. rewrite Ha. xstep.
+            slot_off i 1%nat. rewrite (tab_load m t i 1 (VPtr b o0) _ Hm Hs) by (try lia; cbn [cs_tail nth_error]; congruence). xstep.
+            change (chk I32 (- (1))) with (@Ok Z (-1)). xstep.
+            slot_off i 0%nat. rewrite (tab_load m t i 0 (VPtr pb po) _ Hm Hs) by (try lia; cbn [cs_tail nth_error]; congruence). xstep.
+            rewrite (strchr0 m cb cmd 33 33 eq_refl Hcmd Ncmd) by lia.
+            destruct (find_byte 33 cmd) as [kb|] eqn:Hb; xstep;
+              (slot_off i 8%nat; rewrite (tab_load m t i 8 (VInt (cs_mtime (nths t i))) _ Hm Hs) by (try lia; reflexivity); xstep;
+               rewrite callx_S, x_lbuf_save_none, (Hsv' _ eq_refl); xstep;
+               slot_off i 1%nat; rewrite (tab_load m2 t i 1 (VPtr b o0) _ Hm2 Hs) by (try lia; cbn [cs_tail nth_error]; congruence); xstep;
+               rewrite Hsaved; xstep;
+               slot_off i 0%nat; rewrite (tab_load m3 t i 0 (VPtr pb po) _ Hm3 Hs) by (try lia; cbn [cs_tail nth_error]; congruence); xstep;
+               rewrite callx_S, x_mtime_none, Hmt; xstep;
+               rewrite (tab_store_fld m4 t i 8 (VInt (wrap I64 ts)) _ (set_cs_mtime (nths t i) (wrap I64 ts)) Hm4 Ht ltac:(lia)) by (try lia; reflexivity);
+               xstep; rewrite chk_I32 by lia; xstep; replace (Z.of_nat i + 1) with (Z.of_nat (S i)) by lia; reflexivity). }
+          pose proof (Hiter _ eq_refl) as Hit. unfold quit_loop in Hit; cbn [fn_body cf_ec_quit] in Hit.
+          destruct o as [t'' m'' sv|j r' t'' m2' sv].
+          -- destruct IH' as (l5' & l6' & IH'). exists l5', l6'. rewrite Hit. exact IH'.
+          -- intros u2 m3' u1 m' Hsw Hshow. rewrite Hit. exact (IH' u2 m3' u1 m' Hsw Hshow).
+        * (* a message: bufs_switch(i), ex_show, return 0 *)
+          subst o. intros u2 m3 u1 m' Hsw Hshow.
+          rewrite exec_for; xstep; len16; xstep. rewrite (wrap_U64_id (Z.of_nat i)) by lia; change (wrap U64 16) with 16.
+          destruct (Z.ltb_spec (Z.of_nat i) 16); [|lia]. xstep.
+          slot_off i 1%nat. rewrite (tab_load m t i 1 (VPtr b o0) _ Hm Hs) by (try lia; cbn [cs_tail nth_error]; congruence). xstep.
+          rewrite (strchr0 m cb cmd 97 97 eq_refl Hcmd Ncmd) by lia. rewrite Ha. xstep.
+          rewrite (strchr0 m cb cmd 97 97 eq_refl Hcmd Ncmd) by lia. rewrite Ha. xstep.
+          slot_off i 1%nat. rewrite (tab_load m t i 1 (VPtr b o0) _ Hm Hs) by (try lia; cbn [cs_tail nth_error]; congruence). xstep.
+          change (chk I32 (- (1))) with (@Ok Z (-1)). xstep.
+          slot_off i 0%nat. rewrite (tab_load m t i 0 (VPtr pb po) _ Hm Hs) by (try lia; cbn [cs_tail nth_error]; congruence). xstep.
+          rewrite (strchr0 m cb cmd 33 33 eq_refl Hcmd Ncmd) by lia.
+          destruct (find_byte 33 cmd) as [kb|] eqn:Hb; xstep;
+            (slot_off i 8%nat; rewrite (tab_load m t i 8 (VInt (cs_mtime (nths t i))) _ Hm Hs) by (try lia; reflexivity); xstep;
+             rewrite callx_S, x_lbuf_save_none, (Hsv' _ eq_refl); xstep;
+             rewrite Hsw; xstep; rewrite callx_S, x_ex_show_none, Hshow; xstep; reflexivity).
   Qed.
 End QuitAll.
 
-(* ------------------------------------------------------------------ what qa says *)
+(* ------------------------------------------------------------------ what a run says: no slot is skipped *)
 Definition occ (t : list cslot) (k : nat) : bool := negb (is_null (cs_lb (nths t k))).
 
-(* no failing slot <-> the save of EVERY occupied slot in the range answered NULL: no slot is exempt *)
-Lemma qa_none t sv : forall n i, qa t sv n i = None <-> (forall k, (i <= k < i + n)%nat -> occ t k = true -> is_null (sv k) = true).
+Lemma occ_upd_mtime t i x k : (i < length t)%nat -> occ (upd t i (set_cs_mtime (nths t i) x)) k = occ t k.
 Proof.
-  induction n as [|n IH]; intros i; cbn [qa]; [split; [intros _ k Hk; lia|reflexivity]|].
-  fold (occ t i). split.
-  - intros H k Hk Ho. destruct (occ t i) eqn:Oi; cbn [andb] in H.
-    + destruct (is_null (sv i)) eqn:Ni; cbn [negb] in H; [|discriminate].
-      destruct (Nat.eq_dec k i) as [->|Ne]; [exact Ni|]. apply (proj1 (IH (S i)) H k); [lia|exact Ho].
-    + destruct (Nat.eq_dec k i) as [->|Ne]; [congruence|]. apply (proj1 (IH (S i)) H k); [lia|exact Ho].
-  - intros H. destruct (occ t i) eqn:Oi; cbn [andb].
-    + rewrite (H i ltac:(lia) Oi). cbn [negb]. apply IH. intros k Hk. apply H. lia.
-    + apply IH. intros k Hk. apply H. lia.
+  intro Hi. unfold occ, nths. rewrite nth_upd by exact Hi. destruct (Nat.eqb_spec k i) as [->|_]; reflexivity.
 Qed.
 
-(* the failing slot found is occupied, its save answered a message, and every occupied slot in front of it was saved *)
-Lemma qa_some t sv : forall n i j, qa t sv n i = Some j ->
-  (i <= j < i + n)%nat /\ occ t j = true /\ is_null (sv j) = false /\
-  (forall k, (i <= k < j)%nat -> occ t k = true -> is_null (sv k) = true).
+(* the slots handed to lbuf_save with a NULL answer are, in order, ALL the occupied slots of the range (the loop ended normally), or all
+   the occupied slots in front of the one whose save answered a message *)
+Lemma arun_saved ext cb cmd d fuel : forall n i t m acc o, (i + n = 16)%nat -> length t = 16%nat ->
+  arun ext cb cmd d fuel n i t m acc o ->
+  let occs := filter (occ t) (List.seq i n) in
+  match o with
+  | ADone t' _ sv => sv = rev acc ++ occs /\ (forall k, occ t' k = occ t k)
+  | AFail j r _ _ sv => exists pre post, occs = pre ++ j :: post /\ sv = rev acc ++ pre /\ is_null r = false
+  end.
 Proof.
-  induction n as [|n IH]; intros i j H; cbn [qa] in H; [discriminate|]. fold (occ t i) in H.
-  destruct (occ t i) eqn:Oi; cbn [andb] in H.
-  - destruct (is_null (sv i)) eqn:Ni; cbn [negb] in H.
-    + destruct (IH (S i) j H) as (R & O & N & P). repeat split; try assumption; try lia.
-      intros k Hk Ho. destruct (Nat.eq_dec k i) as [->|Ne]; [exact Ni|]. apply P; [lia|exact Ho].
-    + inversion H; subst j. repeat split; try assumption; try lia.
-  - destruct (IH (S i) j H) as (R & O & N & P). repeat split; try assumption; try lia.
-    intros k Hk Ho. destruct (Nat.eq_dec k i) as [->|Ne]; [congruence|]. apply P; [lia|exact Ho].
+  induction n as [|n IH]; intros i t m acc o Hin Hl Hrun; cbn [arun] in Hrun; cbn [List.seq filter].
+  - subst o. rewrite app_nil_r. auto.
+  - destruct (occ t i) eqn:Eo; cbv iota; unfold occ in Eo; destruct (is_null (cs_lb (nths t i))) eqn:En; try discriminate Eo.
+    2: { apply (IH (S i) t m acc o); [lia|exact Hl|exact Hrun]. }
+    + destruct Hrun as (r & m2 & _ & _ & Hrun). destruct (is_null r) eqn:Er.
+      * destruct Hrun as (u3 & m3 & ts & m4 & _ & _ & _ & _ & _ & _ & Hrun).
+        assert (Hocc : forall k, occ (upd t i (set_cs_mtime (nths t i) (wrap I64 ts))) k = occ t k) by (intro k; apply occ_upd_mtime; lia).
+        assert (Hl' : length (upd t i (set_cs_mtime (nths t i) (wrap I64 ts))) = 16%nat) by (rewrite upd_length; lia).
+        pose proof (IH (S i) _ _ (i :: acc) o ltac:(lia) Hl' Hrun) as H. cbv zeta in H.
+        rewrite (filter_ext _ _ Hocc) in H. cbn [rev] in H.
+        destruct o as [t' m' sv|j r' t' m2' sv].
+        -- destruct H as [-> H2]. split; [rewrite <- app_assoc; reflexivity|]. intro k. rewrite H2. apply Hocc.
+        -- destruct H as (pre & post & -> & -> & Hr). exists (i :: pre), post. repeat split; [rewrite <- app_assoc; reflexivity|exact Hr].
+      * subst o. exists [], (filter (occ t) (List.seq (S i) n)). repeat split; [rewrite app_nil_r; reflexivity|exact Er].
 Qed.
 
 (* ------------------------------------------------------------------ ec_quit(loc, cmd, arg, txt) for xa / xa! *)
-(* for EVERY table and whatever the save of each occupied slot answers (sv; the oracle leaves the memory): the write part first
-   (TrQuit.write_part; a failure is tr_ec_quit_write_fails); then the 16 slots in order, every occupied one handed to lbuf_save with
-   (lb, 0, -1, path, !!strchr(cmd, '!'), mtime) -- also a slot whose path is the empty string, the C text has no test of the path --;
-   if every save answered NULL xquit = 1 is stored and 0 returned; if slot j is the first whose save answered a message: bufs_switch(j),
-   ex_show(that message), 0 returned and xquit NOT stored: the memory is exactly what bufs_switch and ex_show left *)
-Theorem tr_ec_quit_all ext m mw t cb cmd loc arg txt q0 ka sv d fuel : str_at m cb cmd -> nonul cmd -> ptr_val arg ->
+(* for EVERY table and EVERY environment (what lbuf_save, mtime, ex_show answer and what they and lbuf_saved leave in memory, provided the
+   table and the command string stay): after the write part (TrQuit.write_part) the run of the loop is `arun 16 0`.  All slots done: xquit = 1
+   is stored and 0 returned.  Slot j's save answered a message: bufs_switch(j), ex_show(message), 0 returned, xquit NOT stored *)
+Theorem tr_ec_quit_all ext m mw t cb cmd loc arg txt q0 ka o d fuel : str_at m cb cmd -> nonul cmd -> ptr_val arg ->
   write_part ext cb cmd arg m 0 mw ->
-  tab_at mw t -> tab_ok t -> lbs_ok t -> cell_at mw G_xquit q0 -> str_at mw cb cmd ->
+  tab_at mw t -> tab_ok t -> lbs_ok t -> paths_ok t -> str_at mw cb cmd ->
   find_byte 97 cmd = Some ka -> (16 < fuel)%nat ->
-  (forall i, (i < 16)%nat -> is_null (cs_lb (nths t i)) = false ->
-     ext X_lbuf_save (save_args t cmd i) mw = Ok (sv i, mw) /\ ptr_val (sv i)) ->
-  (forall i, (i < 16)%nat -> is_null (cs_lb (nths t i)) = false -> exists pb po, cs_path (nths t i) = VPtr pb po) ->
-  match qa t sv 16 0 with
-  | None => callx ext cprog fuel (S (S (S (S d)))) F_ec_quit [loc; VPtr cb 0; arg; txt] m = Ok (VInt 0, upd mw G_xquit [VInt 1])
-  | Some j => forall u2 m2 u1 m', callx ext cprog fuel (S (S (S d))) F_bufs_switch [VInt (Z.of_nat j)] mw = Ok (u2, m2) ->
-      ext X_ex_show [sv j] m2 = Ok (u1, m') ->
+  arun ext cb cmd d fuel 16 0 t mw [] o ->
+  match o with
+  | ADone t' m' _ => cell_at m' G_xquit q0 ->
+      callx ext cprog fuel (S (S (S (S d)))) F_ec_quit [loc; VPtr cb 0; arg; txt] m = Ok (VInt 0, upd m' G_xquit [VInt 1])
+  | AFail j r t' m2 _ => forall u2 m3 u1 m', callx ext cprog fuel (S (S (S d))) F_bufs_switch [VInt (Z.of_nat j)] m2 = Ok (u2, m3) ->
+      ext X_ex_show [r] m3 = Ok (u1, m') ->
       callx ext cprog fuel (S (S (S (S d)))) F_ec_quit [loc; VPtr cb 0; arg; txt] m = Ok (VInt 0, m')
   end.
 Proof.
-  intros Hcmd Ncmd Harg Hw Hm Ht Hlbs Hq Hcmdw Ha Hf Hsave Hpath.
-  pose proof (quit_all_ok ext t cb cmd loc arg txt d fuel mw sv Ht Hlbs Ncmd Hm Hcmdw ka Ha Hsave Hpath 16 0 fuel VUndef VUndef eq_refl Hf) as Hloop.
-  destruct (qa t sv 16 0) as [j|].
-  - intros u2 m2 u1 m' Hsw Hshow. specialize (Hloop u2 m2 u1 m' Hsw Hshow).
-    apply (quit_head ext m cb cmd loc arg txt 0 mw d fuel _ Hcmd Ncmd Harg Hw). cbn [Z.eqb].
-    unfold quit_rest. cbn [fn_body cf_ec_quit]. rewrite exec_seq, exec_seq, exec_expr. xcbn.
-    unfold quit_loop in Hloop; cbn [fn_body cf_ec_quit] in Hloop. change (Z.of_nat 0) with 0 in Hloop. rewrite Hloop. reflexivity.
-  - destruct Hloop as (l5' & l6' & Hloop).
+  intros Hcmd Ncmd Harg Hw Hm Ht Hlbs Hpaths Hcmdw Ha Hf Hrun.
+  pose proof (quit_all_ok ext cb cmd loc arg txt d fuel Ncmd ka Ha 16 0 t mw [] o fuel VUndef VUndef eq_refl Hf Ht Hlbs Hpaths Hm Hcmdw Hrun) as Hloop.
+  destruct o as [t' m' sv|j r t' m2 sv].
+  - intros Hq. destruct Hloop as (l5' & l6' & Hloop).
     apply (quit_head ext m cb cmd loc arg txt 0 mw d fuel _ Hcmd Ncmd Harg Hw). cbn [Z.eqb].
     unfold quit_rest. cbn [fn_body cf_ec_quit]. rewrite exec_seq, exec_seq, exec_expr. xcbn.
     unfold quit_loop in Hloop; cbn [fn_body cf_ec_quit] in Hloop. change (Z.of_nat 0) with 0 in Hloop. rewrite Hloop. xstep.
-    change (wrap I32 1) with 1. rewrite (store_cell mw G_xquit q0 1 Hq). xstep. reflexivity.
-Qed.
-
-(* one occupied slot whose save answers a message -- for instance the slot of the buffer without a name, whose empty path cannot be
-   created -- and xquit is not stored, whatever the other slots hold and whatever their saves answer *)
-Theorem tr_ec_quit_all_refused t sv k : (k < 16)%nat -> is_null (cs_lb (nths t k)) = false -> is_null (sv k) = false ->
-  exists j, qa t sv 16 0 = Some j /\ (j <= k)%nat.
-Proof.
-  intros Hk Ho Hn. destruct (qa t sv 16 0) as [j|] eqn:Q.
-  - exists j. split; [reflexivity|]. destruct (qa_some t sv 16 0 j Q) as (_ & _ & _ & P).
-    destruct (le_lt_dec j k) as [L|L]; [exact L|]. exfalso.
-    assert (X : is_null (sv k) = true) by (apply P; [lia|unfold occ; rewrite Ho; reflexivity]). congruence.
-  - exfalso. assert (X : is_null (sv k) = true) by (apply (proj1 (qa_none t sv 16 0) Q k); [lia|unfold occ; rewrite Ho; reflexivity]). congruence.
-Qed.
-
-Lemma qa_none16 t sv : qa t sv 16 0 = None <->
-  (forall k, (k < 16)%nat -> is_null (cs_lb (nths t k)) = false -> is_null (sv k) = true).
-Proof.
-  split.
-  - intros H k Hk Ho. apply (proj1 (qa_none t sv 16 0) H k); [lia|unfold occ; rewrite Ho; reflexivity].
-  - intros H. apply (proj2 (qa_none t sv 16 0)). intros k Hk Ho. apply H; [lia|]. unfold occ in Ho. destruct (is_null (cs_lb (nths t k))); [discriminate|reflexivity].
-Qed.
-Lemma qa_some16 t sv j : qa t sv 16 0 = Some j ->
-  (j < 16)%nat /\ is_null (cs_lb (nths t j)) = false /\ is_null (sv j) = false /\
-  (forall k, (k < j)%nat -> is_null (cs_lb (nths t k)) = false -> is_null (sv k) = true).
-Proof.
-  intros H. destruct (qa_some t sv 16 0 j H) as (R & O & N & P). unfold occ in O.
-  repeat split; try assumption; try lia.
-  - destruct (is_null (cs_lb (nths t j))); [discriminate|reflexivity].
-  - intros k Hk Ho. apply P; [lia|unfold occ; rewrite Ho; reflexivity].
-Qed.
-
-(* ------------------------------------------------------------------ the C loop against the model DirtyAllDefs.quit_n *)
-(* A table of the model (DirtyAllDefs.ntable: Some nbuf / None per slot) describes the C table t from slot i on when the occupied slots
-   are the same, and the answers sv are those of an environment in which a buffer WITHOUT a name cannot be saved (open("") fails).
-   The environment's answers for the slots that have a name, in slot order, are the schedule the model consumes. *)
-From NV Require DirtyDefs DirtyAllDefs.
-
-Fixpoint tab_rel (t : list cslot) (sv : nat -> val) (i : nat) (tab : DirtyAllDefs.ntable) : Prop :=
-  match tab with
-  | [] => True
-  | None :: r => is_null (cs_lb (nths t i)) = true /\ tab_rel t sv (S i) r
-  | Some f :: r => is_null (cs_lb (nths t i)) = false /\ (DirtyDefs.nname f = None -> is_null (sv i) = false) /\ tab_rel t sv (S i) r
-  end.
-Fixpoint sch_of (sv : nat -> val) (i : nat) (tab : DirtyAllDefs.ntable) : list bool :=
-  match tab with
-  | [] => []
-  | None :: r => sch_of sv (S i) r
-  | Some f :: r => match DirtyDefs.nname f with
-                   | None => sch_of sv (S i) r
-                   | Some _ => is_null (sv i) :: sch_of sv (S i) r
-                   end
-  end.
-
-(* the loop of the C text stores xquit (qa = None) exactly when the model's loop exits; and the slot at which the C loop stops is the
-   number of slots the model's loop has put behind it *)
-Lemma qa_is_model t sv bang : forall tab i pre calls, tab_rel t sv i tab ->
-  match qa t sv (length tab) i with
-  | None => snd (fst (fst (DirtyAllDefs.quit_n true bang pre tab (sch_of sv i tab) calls))) = true
-  | Some j => snd (fst (fst (DirtyAllDefs.quit_n true bang pre tab (sch_of sv i tab) calls))) = false
-  end.
-Proof.
-  induction tab as [|[f|] r IH]; intros i pre calls R; cbn [length qa DirtyAllDefs.quit_n sch_of negb andb].
-  - reflexivity.
-  - destruct R as (O & U & R). rewrite O. cbn [negb andb].
-    destruct (DirtyDefs.nname f) as [p|] eqn:Nm.
-    + cbn [DirtyAllDefs.next_ok]. destruct (is_null (sv i)) eqn:Ns; cbn [negb].
-      * apply IH. exact R.
-      * reflexivity.
-    + rewrite (U eq_refl). cbn [negb]. reflexivity.
-  - destruct R as (O & R). rewrite O. cbn [negb andb]. apply IH. exact R.
-Qed.
-
-Theorem tr_quit_all_is_model t sv bang tab : length tab = 16%nat -> tab_rel t sv 0 tab ->
-  (qa t sv 16 0 = None <-> snd (fst (fst (DirtyAllDefs.quit_n true bang [] tab (sch_of sv 0 tab) []))) = true).
-Proof.
-  intros L R. pose proof (qa_is_model t sv bang tab 0%nat [] [] R) as H. rewrite L in H.
-  destruct (qa t sv 16 0) as [j|]; split; intro X; try reflexivity; try exact H; congruence.
-Qed.
-
-(* so, for the C text: if the `a` loop of ec_quit stores xquit -- every lbuf_save answered NULL -- in an environment that cannot save a
-   buffer without a name, then (DirtyAllProps.xa_every_slot_saved) every buffer of the table has a name and its file holds its text *)
-From NV Require DirtyProps DirtyAllProps.
-Theorem tr_quit_all_exit_sound t sv bang tab : length tab = 16%nat -> tab_rel t sv 0 tab ->
-  Forall DirtyProps.NInv (DirtyAllDefs.noccupied tab) -> qa t sv 16 0 = None ->
-  Forall (fun f => DirtyDefs.nname f <> None) (DirtyAllDefs.noccupied tab) /\
-  let t' := fst (fst (fst (DirtyAllDefs.quit_n true bang [] tab (sch_of sv 0 tab) []))) in
-  Forall DirtyAllProps.good (DirtyAllDefs.noccupied t') /\
-  map DirtyAllProps.ntext (DirtyAllDefs.noccupied t') = map DirtyAllProps.ntext (DirtyAllDefs.noccupied tab).
-Proof.
-  intros L R Inv Q. apply (proj1 (tr_quit_all_is_model t sv bang tab L R)) in Q.
-  destruct (DirtyAllDefs.quit_n true bang [] tab (sch_of sv 0 tab) []) as [[[t' q] cl] s'] eqn:E. cbn [fst snd] in *. subst q.
-  destruct (DirtyAllProps.xa_every_slot_saved bang tab _ t' cl s' Inv E) as (_ & F & G & T & _). auto.
+    change (wrap I32 1) with 1. rewrite (store_cell m' G_xquit q0 1 Hq). xstep. reflexivity.
+  - intros u2 m3 u1 m' Hsw Hshow. specialize (Hloop u2 m3 u1 m' Hsw Hshow).
+    apply (quit_head ext m cb cmd loc arg txt 0 mw d fuel _ Hcmd Ncmd Harg Hw). cbn [Z.eqb].
+    unfold quit_rest. cbn [fn_body cf_ec_quit]. rewrite exec_seq, exec_seq, exec_expr. xcbn.
+    unfold quit_loop in Hloop; cbn [fn_body cf_ec_quit] in Hloop. change (Z.of_nat 0) with 0 in Hloop. rewrite Hloop. reflexivity.
 Qed.
